@@ -366,6 +366,61 @@ func specInput(r *hx.Rand, o encx.Opts, n int, optkn, mode string, big bool) inp
 		M: &m, Fk: fk, Big: big, Sty: &sty}
 }
 
+// addHooks runs hook inputs (pure helpers of the package called directly) and adds their cases;
+// when the tree under test has no hook file the class is skipped and the summary says so.
+func addHooks(ctx *core.Ctx, ins []encx.HookInput) error {
+	cases, present, err := encx.HookCases(ins)
+	if err != nil {
+		return err
+	}
+	if !present {
+		ctx.Sink.Extra["hooks"] = "schemes/enc/v1/verif_hooks.go absent in the tree under test: hook classes skipped"
+		return nil
+	}
+	ctx.Sink.Extra["hooks"] = "present"
+	for _, c := range cases {
+		ctx.Sink.Count("kind=" + c.Kind)
+		ctx.Sink.Add(c)
+	}
+	return nil
+}
+
+// hookInputs: nonceForSegment, the key derivation, SignHeader, EncryptSegment and DecryptSegment
+// (at the position the segment was made for) on segment numbers straddling every byte boundary
+// of the 32-bit counter x both last flags, plus random ones.
+func hookInputs(r *hx.Rand, thorough bool) []encx.HookInput {
+	var ins []encx.HookInput
+	nums := append([]uint32(nil), encx.CounterBoundaries...)
+	extra := 12
+	if thorough {
+		extra = 400
+	}
+	for i := 0; i < extra; i++ {
+		nums = append(nums, uint32(r.U64()>>uint(r.Intn(33))))
+	}
+	k := 0
+	for _, n := range nums {
+		for _, last := range []bool{false, true} {
+			k++
+			fk, np := r.Bytes(32), r.Bytes(7)
+			cph := 1 + k%2
+			data := r.Bytes(r.Range(1, 40))
+			ins = append(ins, encx.HookInput{Kind: "hook", Op: "nonce", Np: np, Num: n, Last: last},
+				encx.HookInput{Kind: "hook", Op: "seal", Fk: fk, Np: np, Cph: cph, Data: data, Num: n, Last: last},
+				encx.HookInput{Kind: "hook", Op: "open", Fk: fk, Np: np, Cph: 3 - cph, Data: data, Num: n, Last: last, Num2: n, Last2: last})
+		}
+	}
+	for i := 0; i < 6; i++ {
+		ins = append(ins, encx.HookInput{Kind: "hook", Op: "keys", Fk: r.Bytes(32), Np: r.Bytes(7)})
+		m := encx.Manifest{K: keyNames[i%len(keyNames)], Kw: 1 + i%5, Wfk: r.Bytes(32), Cph: 1 + i%2, Np: r.Bytes(7)}
+		ins = append(ins, encx.HookInput{Kind: "hook", Op: "header", Fk: r.Bytes(32), Np: m.Np, Data: m.Text(encx.GenStyle(r, false))})
+	}
+	// a prefix that is not 7 bytes long (model only), an empty chunk (must be refused)
+	ins = append(ins, encx.HookInput{Kind: "hook", Op: "nonce", Np: r.Bytes(5), Num: 258, Last: true},
+		encx.HookInput{Kind: "hook", Op: "seal", Fk: r.Bytes(32), Np: r.Bytes(7), Cph: 1, Data: nil, Num: 0, Last: true})
+	return ins
+}
+
 func gen(ctx *core.Ctx) {
 	r := ctx.R
 	mult := 1
@@ -494,6 +549,11 @@ func gen(ctx *core.Ctx) {
 		must(input{Kind: "file", File: f.name, P: encx.PRep(f.pat, f.count), Style2: styles[r.Intn(len(styles))], OptKn: optkn,
 			Seed: r.U64(), Big: f.big})
 	}
+	// 5b. the unexported pure helpers, called through the hook file
+	if err := addHooks(ctx, hookInputs(r, ctx.Thorough)); err != nil {
+		fmt.Fprintln(os.Stderr, "c01:", err)
+		os.Exit(2)
+	}
 	// 6. lengths around the segment boundaries, both ciphers
 	S := encx.S
 	bigLens := []int{S - 1, S, S + 1, 2*S - 1, 2 * S, 2*S + 1}
@@ -545,6 +605,16 @@ func main() {
 		Shard:    1 << 30,
 		Gen:      gen,
 		RunInput: func(ctx *core.Ctx, raw json.RawMessage) error {
+			var probe struct {
+				Kind string `json:"kind"`
+			}
+			if json.Unmarshal(raw, &probe) == nil && probe.Kind == "hook" {
+				var h encx.HookInput
+				if err := json.Unmarshal(raw, &h); err != nil {
+					return err
+				}
+				return addHooks(ctx, []encx.HookInput{h})
+			}
 			var in input
 			if err := json.Unmarshal(raw, &in); err != nil {
 				return err
